@@ -568,6 +568,44 @@ pub fn run(cfg: &Cfg, rep: &mut Report) {
             }
         }
     }
+    // (o) special constants (NaN, infinities, -0.0, MIN_INT, MAX_INT, overflowing float products) under every operator and
+    // in every position where the folding pass evaluates constants: no failure kind covers them, they must just fold
+    {
+        let specials = ["(0.0 / 0.0)", "(1.0 / 0.0)", "(-1.0 / 0.0)", "(-0.0)", "(0 - 9223372036854775807 - 1)", "9223372036854775807", "(1e308 * 10.0)", "(1e308 * 10.0 - 1e308 * 10.0)", "5e-324", "1", "2.5", "0", "0.0"];
+        let ops = ["+", "-", "*", "/", "%", "**", "==", "!=", "<", "<=", ">", ">=", "&&", "||", "&", "|", "^", "<<", ">>"];
+        let mut k = 0u64;
+        for a in specials {
+            for b in specials {
+                k += 1;
+                if !cfg.owns(k) {
+                    continue;
+                }
+                for op in ops {
+                    let e = format!("{a} {op} {b}");
+                    for text in [
+                        e.clone(),
+                        format!("x := {a}; y := {b}; x {op} y"),
+                        format!("x := {e}; [x, x]"),
+                        format!("if {e} == {e} {{ 1 }} else {{ 2 }}"),
+                        format!("match {a} {{ {b} => 1, => 2, }}"),
+                        format!("m := match {e} {{ {a}, {b} => 1, => 2, }}; m"),
+                        format!("f := () -> any {{ return {e} }}; f()"),
+                        format!("c := mut {a}; c {op}= {b}"),
+                        format!("[{a}, {b}]~ $+"),
+                        format!("[{a}, {b}]~ $*"),
+                        format!("[{e}]~ ? (v: any) -> bool {{ return v == {a} }} $]"),
+                        format!("[1, 2, 3][{e}]"),
+                        format!("[1, 2, 3][{a}:{b}]"),
+                        format!("[0; {e}]"),
+                        format!("-({e})"),
+                        format!("!({e})"),
+                    ] {
+                        ctx.parse("special-constants", &text, false);
+                    }
+                }
+            }
+        }
+    }
     // (n) every text of one or two printable ASCII characters, alone, before a program (same line / next line) and
     // after one: comment-like, shebang-like and escape-like prefixes the grammar has no rule for
     {
